@@ -161,11 +161,27 @@ def run(rd, emit, log, enum_values, ti_default):
     pm = _fn_body(al, r'void\s+ApiListener::PersistMessage\s*\(')
     pmax = 'None'
     if pm is not None:
-        # the entry goes to NetString::WriteStringToStream under no other condition than an open log file,
-        # and nothing in the function compares a length
-        if re.search(r'if\s*\(\s*m_LogFile\s*\)\s*\{\s*NetString::WriteStringToStream\s*\(\s*m_LogFile\s*,\s*JsonEncode\s*\(\s*pmessage\s*\)\s*\)\s*;', pm) \
-                and len(re.findall(r'\breturn\b', pm)) == 0 \
-                and not re.search(r'(GetLength|size|length)\s*\(\s*\)\s*(<|>|==|!=)|(<|>|==|!=)\s*[\w.>-]*(GetLength|size|length)\s*\(', pm):
+        # the entry (JsonEncode(pmessage), directly or through a local) goes to NetString::WriteStringToStream(m_LogFile, ..)
+        # under no other condition than an open log file: the only branches of the function are the known three, nothing
+        # returns / throws / compares a length
+        enc = re.search(r'JsonEncode\s*\(\s*pmessage\s*\)', pm)
+        wr = re.search(r'NetString::WriteStringToStream\s*\(\s*m_LogFile\s*,\s*([^;]+)\)\s*;', pm)
+        ok = bool(enc and wr)
+        if ok:
+            arg = wr.group(1).strip()
+            if not re.fullmatch(r'JsonEncode\s*\(\s*pmessage\s*\)', arg):
+                ok = bool(re.fullmatch(r'\w+', arg) and re.search(r'\b(?:const\s+)?(?:String|auto)\s*&?\s*' + re.escape(arg) + r'\s*(?:=\s*JsonEncode\s*\(\s*pmessage\s*\)|\(\s*JsonEncode\s*\(\s*pmessage\s*\)\s*\)|\{\s*JsonEncode\s*\(\s*pmessage\s*\)\s*\})\s*;', pm))
+        if ok:
+            rest = pm
+            for known in (r'if\s*\(\s*secobj\s*\)', r'if\s*\(\s*m_LogFile\s*\)', r'if\s*\(\s*m_LogMessageCount\s*>\s*\d+\s*\)'):
+                rest = re.sub(known, '', rest, count=1)
+            if re.search(r'\b(if|else|switch|while|for|return|continue|break|goto|throw|try|catch)\b|\?|BOOST_THROW|GetLength|\.size\s*\(|\.length\s*\(|substr|SubStr', rest):
+                ok = False
+            # the write precedes nothing that could undo it and sits inside the m_LogFile branch
+            m = re.search(r'if\s*\(\s*m_LogFile\s*\)\s*\{', pm)
+            if not m or not (m.end() <= wr.start()):
+                ok = False
+        if ok:
             pmax = 'Some None'
     if pmax == 'None': log.append('C12: PersistMessage entry emission not recognised')
     body += '(* largest entry ApiListener::PersistMessage writes: Some None = no limit *)\n'
